@@ -29,6 +29,9 @@ CREATABLE = {
     'LimitAlertConditionDescriptor': ('AlertSystemDescriptor',),
     'AlertSignalDescriptor': ('AlertSystemDescriptor',),
     'BatteryDescriptor': ('MdsDescriptor',),
+    'PatientContextDescriptor': ('SystemContextDescriptor',),
+    'LocationContextDescriptor': ('SystemContextDescriptor',),
+    'EnsembleContextDescriptor': ('SystemContextDescriptor',),
 }
 
 DELETABLE = ('NumericMetricDescriptor', 'StringMetricDescriptor', 'EnumStringMetricDescriptor', 'ChannelDescriptor',
@@ -104,6 +107,7 @@ class Gen:
         self.cache = {}  # handle -> entity object fetched after an earlier operation ("stale" entities the app kept)
         self.p_stale = 0.0
         self.retry = None  # copy of the operation that was aborted last (see gen_op)
+        self.removed_ctx = {}  # context descriptor handle -> handles of the context states it had when it was deleted
 
     # ---- helpers
     def _states_by_tt(self, tt):
@@ -204,6 +208,12 @@ class Gen:
             if a == 'new':
                 self.n += 1
                 h = f'ctx{self.n}.{rng.randint(0, 999)}'
+                old_handles = self.removed_ctx.get(d.Handle)
+                if old_handles and rng.random() < 0.7:
+                    # a context state handle that existed before its descriptor was deleted and created again
+                    h = old_handles.pop(rng.randrange(len(old_handles)))
+                    if h in self.m.context_states.handle or h in used:
+                        h = f'ctx{self.n}.{rng.randint(0, 999)}'
                 st = self.m.data_model.mk_state_container(d)
                 st.Handle = h
                 muts = self._gen_state_muts(st, 2)
@@ -237,11 +247,57 @@ class Gen:
         force_entity = False
         nsteps = 1 if rng.random() < 0.55 else rng.randint(2, 3)
         for _ in range(nsteps):
-            a = rng.choice(['update', 'update', 'update', 'create', 'create', 'delete', 'recreate'])
+            a = rng.choice(['update', 'update', 'update', 'create', 'create', 'delete', 'recreate', 'addstate', 'conflict'])
             if a == 'recreate' and not self.removed_handles:
                 a = 'create'
+            if a == 'addstate':
+                # a descriptor that was created without state gets its state in a later transaction
+                lacking = self._descr_candidates(
+                    lambda d: d.Handle not in touched and not d.is_context_descriptor
+                    and m.states.descriptor_handle.get_one(d.Handle, allow_none=True) is None)
+                if not lacking:
+                    a = 'update'
+                else:
+                    d = rng.choice(lacking)
+                    st = m.data_model.mk_state_container(d)
+                    touched.add(d.Handle)
+                    steps.append({'a': 'addstate', 'h': d.Handle, 'state_muts': self._gen_state_muts(st, 2)})
+                    continue
+            if a == 'conflict':
+                # (rare) the transaction deletes a sub-tree and also touches something inside it, or deletes a descriptor
+                # and one of its ancestors: the first has to be refused as a whole, the second is merely redundant
+                if rng.random() < 0.6:
+                    a = 'update'
+                else:
+                    roots = self._descr_candidates(
+                        lambda d: d.Handle not in touched and d.NODETYPE.localname in ('ChannelDescriptor', 'VmdDescriptor')
+                        and len(m.get_all_descriptors_in_subtree(d)) > 1
+                        and not any(x.Handle in touched for x in m.get_all_descriptors_in_subtree(d)))
+                    if not roots:
+                        a = 'update'
+                    else:
+                        root = rng.choice(roots)
+                        inner = rng.choice([x for x in m.get_all_descriptors_in_subtree(root) if x.Handle != root.Handle])
+                        if rng.random() < 0.5:
+                            pair = [{'a': 'update', 'h': inner.Handle, 'muts': self._gen_descr_muts(inner), 'with_state': False,
+                                     'state_muts': []}, {'a': 'delete', 'h': root.Handle}]
+                        else:
+                            pair = [{'a': 'delete', 'h': inner.Handle}, {'a': 'delete', 'h': root.Handle}]
+                        if rng.random() < 0.5:
+                            pair.reverse()
+                        for x in m.get_all_descriptors_in_subtree(root):
+                            touched.add(x.Handle)
+                        steps.extend(pair)
+                        if root.NODETYPE.localname in CREATABLE:
+                            self.removed_handles.append((root.NODETYPE.localname, root.Handle, root.parent_handle))
+                        continue
             if a == 'update':
                 cands = self._descr_candidates(lambda d: d.Handle not in touched and not d.is_context_descriptor)
+                if rng.random() < 0.12:
+                    # a context descriptor itself is updated (all its context states follow with a new DescriptorVersion)
+                    ctx_c = self._descr_candidates(lambda d: d.Handle not in touched and d.is_context_descriptor)
+                    many = [d for d in ctx_c if len(m.context_states.descriptor_handle.get(d.Handle, [])) >= 2]
+                    cands = many or ctx_c or cands
                 if not cands:
                     continue
                 d = rng.choice(cands)
@@ -254,7 +310,7 @@ class Gen:
                         force_entity = True
                 # sometimes update parent and child in one transaction
                 muts = self._gen_descr_muts(d)
-                with_state = rng.random() < 0.4
+                with_state = rng.random() < 0.4 and not d.is_context_descriptor
                 smuts = []
                 if with_state:
                     st = m.states.descriptor_handle.get_one(d.Handle, allow_none=True)
@@ -280,7 +336,7 @@ class Gen:
                     if parent not in m.descriptions.handle or h in m.descriptions.handle or h in touched:
                         continue
                 else:
-                    tname = rng.choice(list(CREATABLE))
+                    tname = rng.choice([t for t in CREATABLE if not t.endswith('ContextDescriptor')])
                     updated_here = {st['h'] for st in steps if st['a'] == 'update'}
                     parents_here = {st['parent'] for st in steps if st['a'] == 'create'}
                     parents = self._descr_candidates(
@@ -331,6 +387,11 @@ class Gen:
                 for x in sub:
                     touched.add(x.Handle)
                 steps.append({'a': 'delete', 'h': d.Handle})
+                for x in sub:
+                    if x.is_context_descriptor:
+                        hs = [st.Handle for st in m.context_states.descriptor_handle.get(x.Handle, [])]
+                        if hs:
+                            self.removed_ctx.setdefault(x.Handle, []).extend(hs)
                 if d.NODETYPE.localname in CREATABLE:
                     self.removed_handles.append((d.NODETYPE.localname, d.Handle, d.parent_handle))
         if not steps:
@@ -375,6 +436,9 @@ class Gen:
             except Exception as ex:  # noqa: BLE001
                 err = repr(ex)
             if err is None:
+                if d.is_context_descriptor:
+                    return {'a': 'create', 'type': tname, 'h': h, 'parent': parent, 'muts': muts, 'state_muts': [],
+                            'with_state': False}
                 st = m.data_model.mk_state_container(d)
                 smuts = self._gen_state_muts(st, 2) if self.rng.random() < 0.6 else []
                 return {'a': 'create', 'type': tname, 'h': h, 'parent': parent, 'muts': muts, 'state_muts': smuts,
@@ -671,6 +735,12 @@ def _apply_descr(mdib, op, env, in_body):
                         apply_muts(st, s['state_muts'])
                         env.check_valid(mdib, st)
                     mgr.add_descriptor(d, state_container=st)
+            elif s['a'] == 'addstate':
+                d = mgr.get_descriptor(s['h'])
+                st = mdib.data_model.mk_state_container(d)
+                apply_muts(st, s['state_muts'])
+                env.check_valid(mdib, st)
+                mgr.add_state(st)
             elif s['a'] == 'delete':
                 if entity:
                     ent = mdib.entities.by_handle(s['h'])
